@@ -63,7 +63,7 @@ RULE = ("case = 1-3 enable epochs on one PacketTransmitter; profile = (ack delay
 REQUIRED_BINS = ["disable_during_retry", "disable_quiet", "disable_busy", "queue_valid_without_credit", "accept_on_last_credit", "unacked_2_at_accept", "unacked_3plus_at_accept",
                  "lbad_unacked_0", "lbad_unacked_1", "lbad_unacked_2", "lbad_unacked_3plus", "lbad_header_in_flight", "lbad_wire_idle",
                  "lbad_during_retransmission_run", "lbad_word_near_header_end", "new_header_after_retransmission",
-                 "accept_during_retransmission_run", "lgood_mismatch", "lbad_after_lgood_mismatch", "lcrd_mismatch",
+                 "accept_during_retransmission_run", "accept_in_cycle_after_lbad_word", "accept_in_cycle_after_retiring_lgood_word", "lgood_mismatch", "lbad_after_lgood_mismatch", "lcrd_mismatch",
                  "malformed_command_ignored", "sequence_wrapped", "advertisement_not_7", "data_header", "source_stalled_in_header",
                  "epoch_2plus", "retransmission_of_3plus", "burst_accept_back_to_back", "lgood_during_header",
                  "unrelated_command", "gap_inside_command"]
@@ -128,6 +128,9 @@ class Epoch:
         self.lgood_mismatch_open = False
         self.had_run = False
         self.run_len = 0
+        self.last_lbad = -100
+        self.last_retire = -100
+        self.accept_with_lbad = None   # index of a header that was accepted in the cycle after an LBAD word
         self.lbad_open = False   # an LBAD was seen and the transmitter has not caught up (everything accepted transmitted) since
 
 
@@ -185,6 +188,7 @@ class Oracle:
                     res.bin("advertisement_not_7")
             elif ep.k < len(ep.A) and sub == (ep.adv + 1 + ep.k) % 8:
                 ep.k += 1
+                ep.last_retire = cyc
                 res.event("headers_retired")
             else:
                 ep.mismatch = True
@@ -212,6 +216,7 @@ class Oracle:
             if ep.lgood_mismatch_open:
                 res.bin("lbad_after_lgood_mismatch")
                 ep.lgood_mismatch_open = False
+            ep.last_lbad = cyc
             p = {"t": cyc, "k": ep.k, "during": during, "unacked": un, "soft": False, "stale_dl": False, "at_done": False}
             ep.pend.append(p)
             if self.flight is not None:
@@ -248,6 +253,11 @@ class Oracle:
             res.bin("burst_accept_back_to_back")
         ep.credits = max(0, ep.credits - 1)
         ep.strict = max(0, ep.strict - 1)
+        if cyc - ep.last_retire == 1:
+            res.bin("accept_in_cycle_after_retiring_lgood_word")
+        if cyc - ep.last_lbad == 1:
+            ep.accept_with_lbad = len(ep.A)
+            res.bin("accept_in_cycle_after_lbad_word")
         ep.index[hdr] = len(ep.A)
         ep.A.append(hdr)
         if len(ep.A) - ep.k > BUFFERS:
@@ -405,6 +415,7 @@ class Oracle:
             ep.run_len = 0
         if ep.nxt >= len(ep.A) and not ep.pend:
             ep.lbad_open = False
+            ep.accept_with_lbad = None
         return idx
 
     def _seq(self, ep, idx, seq, what):
@@ -444,6 +455,8 @@ class Oracle:
                 mech = "retransmission_not_started" if ep.pend else ("retransmission_run_incomplete" if eff < ep.hw else "accepted_header_not_transmitted")
                 if ep.pend and ep.pend[-1]["stale_dl"]:
                     mech = "lbad_during_retry_forgotten"
+                elif mech == "accepted_header_not_transmitted" and ep.accept_with_lbad is not None and eff == len(ep.A) - 1:
+                    mech = "header_accepted_in_lbad_cycle_then_last_header_never_transmitted"
                 self.report(mech, "cycle %d: %d idle cycles although header index %d of %d accepted is owed (retired %d, transmitted %d)"
                             % (cyc, self.idle, eff, len(ep.A), ep.k, ep.hw))
                 self.idle = 0
@@ -498,6 +511,7 @@ def draw_profile(rng):
     P["burst"] = rng.choice([0.3, 0.6, 0.9])
     P["p_data"] = rng.choice([0.0, 0.25, 0.5])
     P["sink_idle"] = rng.choice(["invalid", "zeros", "noise", "mixed"])
+    P["snipe"] = rng.random() < 0.3            # queue offers aimed at the cycle in which an LBAD / LGOOD is decoded
     P["epochs"] = rng.choice([1, 2, 2, 3])
     P["target"] = rng.randint(20, 50)          # headers per epoch
     P["salt"] = rng.getrandbits(27)
@@ -567,7 +581,7 @@ def run_case(rng, tier, res):
             "wire": None,                 # header being collected: [start, words...]
             "word_first_valid": None,
             "lrty_left": 0, "lrty_fell": -1, "prev_accept_cycle": -10,
-            "abort_at": None, "hold_sink": True, "in_reset": True, "prev_xfer": False, "last_dl": 0,
+            "abort_at": None, "snipe_at": -1, "hold_sink": True, "in_reset": True, "prev_xfer": False, "last_dl": 0,
         })
 
     new_state()
@@ -782,6 +796,8 @@ def run_case(rng, tier, res):
                 if rng.random() < 0.06:
                     pending[1:1] = [(0, rng.getrandbits(32), rng.getrandbits(4))] * rng.randint(1, 2)
                 res.sig(now, cmd, sub, how)
+                if cmd in (LBAD, LGOOD) and how == "ok" and len(pending) == 2:
+                    st["snipe_at"] = now + rng.choice([1, 2, 2, 2, 2, 3])
             elif go and rng.random() < P["p_unrelated"]:
                 cmd = rng.choice([LRTY, LGO_U, LGO_U, LAU, LXU, LPMA, LUP, LDN])
                 sub = {LGO_U: rng.randint(1, 3), LDN: 0b1011}.get(cmd, 0)
@@ -846,7 +862,11 @@ def run_case(rng, tier, res):
                 offered = None
                 st["offered"] += 1
             if offered is None:
-                if st["offering"] and st["offered"] < cur["P"]["target"] and rng.random() < cur["P"]["burst"]:
+                if cur["P"]["snipe"]:
+                    want = b.cycle == st["snipe_at"] or rng.random() < 0.03
+                else:
+                    want = rng.random() < cur["P"]["burst"]
+                if st["offering"] and st["offered"] < cur["P"]["target"] and want:
                     offered = make_header()
                     res.sig(offered)
                     setv(q.valid, 1)
